@@ -185,6 +185,23 @@ def c02_2(ctx: Ctx) -> RuleResult:
         ok = guard or in_sel
         res.add(f, c, "only realizations with non-zero weight contribute (|w| > 0 in the selector or guarding the solve)", ok,
                 "" if ok else "zero-weight (inactive, possibly garbage) realizations enter the solve", construct=f"{f.name}: active realizations")
+        # how the two requirements are combined: a row enters the solve iff its realization is active AND its
+        # difference is not NaN (never OR), and a realization is solved as soon as ANY of its perturbations succeeded
+        # (a failed perturbation is left out as if absent; it does not void the realization's other perturbations)
+        disj = [x for x in ctx.X.closure(norm(sel)) if (x[0] == "binop" and x[1] == "|") or (x[0] == "call" and x[1] == G("numpy.logical_or"))]
+        disj = [x for x in disj if contains(x, lambda y: y[0] == "call" and y[1] == G("numpy.isnan"))]
+        ok = not disj
+        res.add(f, c, "activity and non-NaN are combined with AND in the row selector", ok,
+                "" if ok else f"the selector contains `{show(disj[0], 70)}`: rows of inactive (zero-weight, possibly failed) realizations enter the solve whenever their difference is a number",
+                construct=f"{f.name}: selector conjunction")
+        from .common import conds_at
+
+        alls = [a for a, pol in conds_at(ctx, f, c).items() if pol and a[0] == "call" and a[1] in (G("numpy.all"), ("builtin", "all")) and a[2]
+                and (a[2][0] == sel or any(y[0] == "call" and y[1] == G("numpy.isnan") for y in ctx.X.closure(a[2][0])))]
+        ok = not alls
+        res.add(f, c, "a realization is solved when any of its perturbations succeeded (failed perturbations are dropped, not the realization)", ok,
+                "" if ok else f"the solve is guarded by `{show(alls[0], 60)}`: one failed perturbation removes the whole realization from the gradient although enough perturbations succeeded",
+                construct=f"{f.name}: solve guard any")
         # a per-realization mask expanded to the stacked (realization-major) rows must be
         # np.repeat(mask, P): row k belongs to realization k // P
         stacked = any(x[0] == "call" and x[1] in (G("numpy.reshape"), G("numpy.ravel")) for x in subterms(norm(M[1]))) or any(
